@@ -8,6 +8,7 @@ func emitAll(repo string) {
 	emitFs(t)
 	emitFatal(t)
 	emitListIdx(t)      // listidx.go: listIndexSites (C18)
+	emitAstIndex(t)     // listidx.go: astIndexSites (C18)
 	emitPhases(t)       // phases.go: mainPhases, phaseCallSites (C17, C18)
 	emitCleanReads(t)   // phases.go: cleanReadSites (C17)
 	emitPatternSites(t) // phases.go: patternSites (C18)
